@@ -265,18 +265,32 @@ def success_has_one_writer(ctx):
     callers = q.callers_of(ctx, target.qualname)
     ctx.need(callers, 'nobody calls TransferCoordinator.set_result')
     for cf, c, r in callers:
-        if cf.qualname != 'tasks.Task._execute_main':
-            ctx.ob(cf, c, False, 'set_result may only be called by Task._execute_main (the final task after its _main returned)')
-            continue
-        g = ctx.cfg(cf)
+        ctx.ob(cf, c, cf.qualname in ('tasks.Task._execute_main', 'tasks.Task.__call__'),
+               'set_result may only be called by the task funnel (Task.__call__ / Task._execute_main: the final task after its _main returned)')
+    # the shape is judged on the fully expanded Task.__call__ (whether the block sits in _execute_main or in __call__ itself)
+    x = ctx.expanded()
+    cf = x.func('tasks.Task.__call__')
+    g = x.cfg(cf)
+    srs = [c for c in own_calls(cf.node) if (dotted(c.func) or '').endswith('_transfer_coordinator.set_result')]
+    ctx.ob(cf.qualname, 'exactly one set_result site in the expanded task funnel', len(srs) == 1, f'{len(srs)} sites', node=cf.node)
+    for c in srs:
         mains = [n for m in q.find_calls(cf, '_main') for n in g.nodes_of(m)]
-        conj = ' and '.join(('' if pol else 'not ') + f'({norm(e)})' for e, pol in q.guards(c)) or 'True'
-        ok = q.equivalent(conj, 'self._is_final') and bool(mains) and g.all_dominate(mains, g.nodes_of(c), g.NORMAL) \
+        mcalls = q.find_calls(cf, '_main')
+        mpos = max([m._pos for m in mcalls], default=0)
+        # tests made after _main returned decide whether the success is recorded: exactly `self._is_final`;
+        # tests made before _main (the skip-if-done check of the funnel) only decide whether _main runs at all
+        after = [(e, pol) for e, pol in q.guards(c) if getattr(e, '_pos', 0) > mpos]
+        before = [(e, pol) for e, pol in q.guards(c) if getattr(e, '_pos', 0) <= mpos]
+        conj = ' and '.join(('' if pol else 'not ') + f'({norm(e)})' for e, pol in after) or 'True'
+        conj_b = ' and '.join(('' if pol else 'not ') + f'({norm(e)})' for e, pol in before) or 'True'
+        ok = q.equivalent(conj, 'self._is_final') and (conj_b == 'True' or q.equivalent(conj_b, 'not self._transfer_coordinator.done()')) \
+            and bool(mains) and g.all_dominate(mains, g.nodes_of(c), g.NORMAL) \
             and not q.in_handler(c) and not any(field == 'finalbody' for _, field in q.enclosing_trys(c))
-        ctx.ob(cf, c, ok, f'set_result must run exactly when the final task\'s _main returned normally - success of the final step overrides an earlier cancel (guards={q.guard_texts(c)})')
+        ctx.ob(cf.qualname, c, ok, f'set_result must run exactly when the final task\'s _main returned normally - success of the final step overrides an earlier cancel (guards={q.guard_texts(c)})')
         arg = c.args[0] if c.args else None
-        src = isinstance(arg, ast.Name) and any(isinstance(v, ast.Call) and (dotted(v.func) or '').endswith('_main') for _, v in q.local_defs(cf, arg.id))
-        ctx.ob(cf, f'set_result argument {norm(arg)}', bool(src), 'the result must be the return value of _main')
+        v = q.resolve_local(cf, arg) if arg is not None else None
+        src = isinstance(v, ast.Call) and (dotted(v.func) or '').endswith('_main')
+        ctx.ob(cf.qualname, f'set_result argument {norm(arg)}', bool(src), 'the result must be the return value of _main')
 
 
 @rule('C03.c', ['C03', 'C05', 'C06', 'C19', 'C20'], floor=30)
